@@ -240,14 +240,17 @@ fn make_ref(cfg: &Cfg, u: &Universe) -> QRef {
         flagged: BTreeSet::new(),
         learned: BTreeSet::new(),
     };
-    for (id, f) in cfg.initial.iter().take(cfg.num_results) {
+    for (id, _) in cfg.initial.iter().take(cfg.num_results) {
         r.learned.insert(*id);
+    }
+    // every initial candidate handed over with a matching record was "reported to the lookup with a
+    // record satisfying the predicate", whether or not the implementation keeps more than the first k
+    // of them (the pinned one truncates, a refactoring that keeps them all is just as right)
+    for (id, f) in cfg.initial.iter() {
         if *f {
             r.flagged.insert(*id);
         }
     }
-    // initial candidates beyond the first k are dropped by the query; a flag given for them
-    // still counts as "reported with a matching record" only if they made it in
     r
 }
 
